@@ -175,12 +175,18 @@ CHECKS = {
          "the 64-bit length field) the streaming Hash256Writer returns FIPS 180-4 SHA-256 of the concatenation, by an invariant "
          "over the write list; the constants regenerated from hash.ts equal the FIPS constants; hash256() of every tree = "
          "SHA-256(encoding); the encoding and hash() are independent of property order, mapping order, format order and "
-         "descriptions (all trees); alias-boundary independence is refuted with a witness (cycle ids). The clauses 'real SHA-256' "
+         "descriptions (all trees); C13_equal_streams_accept_the_same_values — for all non-recursive trees (named types along a "
+         "rank function, metadata, discriminated unions included; no template-literal patterns), all fuels, format tables, modes "
+         "and values: equal byte strings fed to SHA-256 imply equal validation answers (the framing is a prefix code, "
+         "C13_framing_is_a_prefix_code; induction on the encoder), hence validators that disagree are hashed from different "
+         "bytes (C13_disagreeing_validators_are_hashed_from_different_bytes: equal digests would be a SHA-256 collision); "
+         "alias-boundary independence is refuted with a witness (cycle ids). The clauses 'real SHA-256' "
          "(against node:crypto), renaming/alias/order/description independence and 'different behaviour => different digest' are "
          "additionally searched on the implementation over generated trees, variants and single-field mutants.",
          "processChunk is shared by the writer model and the FIPS spec (validated by NIST vectors and node:crypto, not proved); "
-         "unique decodability of the encoding is not proved; alpha-equivalence is checked, not proved; localeCompare is modelled as "
-         "code-unit order on ASCII constants."),
+         "for recursive types (cycle ids) 'different behaviour => different bytes' and alpha-equivalence are searched, not proved; "
+         "collision resistance of SHA-256 is outside any proof; localeCompare is modelled as ICU root order on the alphabet of the "
+         "sort keys."),
  "C12": ("Theorems: at most ten errors (all trees); at least one error for every rejected value outside the two known call "
          "sites (tuple without rest given surplus items; empty intersection) — C12_at_least_one_except_known, by induction "
          "over the fuel of reportDecodeError for all trees/values; C12_errors_point_into_the_input_except_known — for every tree "
